@@ -165,10 +165,6 @@ Definition sizes_ok (m : mdoc) : Prop :=
   blen (encode (mso_cbor (m_mso m))) < two64 /\
   Forall (fun x => Forall (fun it => blen (item_bytes it) < two64) (snd x)) (m_namespaces m).
 
-(* no digest id is i32::MIN (the recorded finding F3; automatic in a debug build) *)
-Definition no_min_id (m : mdoc) : Prop :=
-  Forall (fun x => Forall (fun kv => fst kv <> i32_min) (snd x)) (mso_value_digests (m_mso m)).
-
 Lemma int_cbor_inj a b : int_cbor a = int_cbor b -> a = b.
 Proof.
   unfold int_cbor. destruct (Z.ltb_spec a 0), (Z.ltb_spec b 0); intro HE; try discriminate.
@@ -189,7 +185,7 @@ Qed.
 
 Lemma id_from_draw_in release z : id_from_draw release z -> in_i32 z = true.
 Proof.
-  intro H. apply id_from_draw_range in H as [H|[_ ->]]; [|reflexivity].
+  intro H. apply id_from_draw_range in H.
   apply in_i32_iff. unfold i32_min, i32_max. lia.
 Qed.
 
@@ -287,7 +283,6 @@ Section MeetsSpec.
   Hypothesis Hdecoy : stream_wf (t_decoy t).
   Hypothesis Hissue : issue release q t x5 sign = Ok m.
   Hypothesis Hsizes : sizes_ok m.
-  Hypothesis Hmin : release = false \/ no_min_id m.
   (* the signer's signatures are accepted by the verifier for the signer's key *)
   Hypothesis Hsign : forall tbs sg, sign tbs = Some sg -> verify_sig tbs sg = true.
 
@@ -314,10 +309,7 @@ Section MeetsSpec.
       - pose proof (issued_vd_wf _ _ _ _ _ _ Hissue Hdecoy) as Hw. rewrite Forall_forall in Hw.
         destruct Hns as [i [_ Hv]]. apply nth_error_In in Hv. exact (Hw _ Hv kv Hin). }
     destruct Hfrom as [Hf Hw]. split; [exact Hf|]. split; [|exact Hw].
-    destruct (id_from_draw_range _ _ Hf) as [R|[Hr Hz]]; [exact R|]. exfalso.
-    destruct Hmin as [Hrel|Hnm]; [congruence|]. unfold no_min_id in Hnm. rewrite Forall_forall in Hnm.
-    destruct Hns as [i [_ Hv]]. apply nth_error_In in Hv. specialize (Hnm _ Hv). cbn [snd] in Hnm.
-    rewrite Forall_forall in Hnm. exact (Hnm _ Hin Hz).
+    exact (id_from_draw_range _ _ Hf).
   Qed.
 
   Lemma request_ns_text i x : nth_error (q_namespaces q) i = Some x -> text_ok (fst x) /\ Forall elem_wf (snd x).
@@ -451,20 +443,10 @@ End MeetsSpec.
 (** * The pinned statements of Props/C09.v *)
 
 Lemma c09_digest_id_range : forall (release : bool) (i : Z),
-  in_i32 i = true -> ~ Known_C09_F3 i ->
-  digest_id_new release i = IdValue (Z.abs i) /\ digest_id_in_range (Z.abs i).
+  in_i32 i = true ->
+  digest_id_new release i = Z.min (Z.abs i) 2147483647 /\ digest_id_in_range (digest_id_new release i).
 Proof.
-  intros release i Hin Hk. split; [apply digest_id_new_abs; [exact Hin|exact Hk]|].
-  apply in_i32_iff in Hin. unfold Known_C09_F3, digest_id_in_range, i32_min, i32_max in *. lia.
-Qed.
-
-Lemma c09_digest_id_range_refuted :
-  exists i, in_i32 i = true /\ Known_C09_F3 i /\
-            digest_id_new false i = IdPanic /\
-            exists v, digest_id_new true i = IdValue v /\ ~ digest_id_in_range v.
-Proof.
-  exists (-2147483648)%Z. split; [reflexivity|]. split; [reflexivity|]. split; [reflexivity|].
-  exists (-2147483648)%Z. split; [reflexivity|]. unfold digest_id_in_range. lia.
+  intros release i Hin. split; [exact (digest_id_new_sat release i Hin)|exact (digest_id_new_range release i Hin)].
 Qed.
 
 Lemma c09_draws_are_i32 :
@@ -514,36 +496,29 @@ Lemma c09_ids_in_range : forall release q t x5 sign m,
   issue release q t x5 sign = Ok m ->
   forall ns its vd, ns_of m ns its vd ->
     (forall it, In it its -> In (it_id it) (map fst vd)) /\
-    forall k, In k (map fst vd) -> release = false \/ ~ Known_C09_F3 k -> digest_id_in_range k.
+    forall k, In k (map fst vd) -> digest_id_in_range k.
 Proof.
   intros release q t x5 sign m H ns its vd Hns.
   destruct (issued_digests _ _ _ _ _ _ H _ _ _ Hns) as [Hin [ds [He [_ [_ [_ [Hd _]]]]]]].
   destruct (issued_items _ _ _ _ _ _ H _ _ Hin) as [_ [_ [_ Hdraw]]].
   split.
   - intros it Hit. apply (in_map fst vd (item_entry (q_alg q) it)). apply He. left. apply (in_map _ _ _ Hit).
-  - intros k Hk Hnk. apply in_map_iff in Hk as [kv [<- Hkv]].
+  - intros k Hk. apply in_map_iff in Hk as [kv [<- Hkv]].
     assert (Hf : id_from_draw release (fst kv)).
     { apply He in Hkv as [Hkv|Hkv]; apply in_map_iff in Hkv as [x [<- Hx]]; cbn [item_entry decoy_entry fst].
       - rewrite Forall_forall in Hdraw. exact (Hdraw _ Hx).
       - rewrite Forall_forall in Hd. exact (Hd _ Hx). }
-    destruct (id_from_draw_range _ _ Hf) as [R|[Hr Hz]]; [exact R|].
-    exfalso. destruct Hnk as [Hrel|Hk]; [congruence|]. apply Hk. exact Hz.
+    exact (id_from_draw_range _ _ Hf).
 Qed.
 
-Lemma c09_ids_in_range_refuted :
-  exists q t x5 sign,
-    issue false q t x5 sign = Panic /\
-    exists m ns its vd, issue true q t x5 sign = Ok m /\ ns_of m ns its vd /\
-                        In (-2147483648)%Z (map it_id its) /\ In (-2147483648)%Z (map fst vd).
-Proof.
-  exists {| q_doc_type := [100]; q_namespaces := [([110], [([101], CUInt 1)])]; q_validity := CNull; q_alg := SHA256;
-            q_device_key_info := CNull; q_auth := None; q_sig_alg := (-7)%Z; q_decoys := false |},
-         {| t_ids := [2147483648]; t_salt := repeat 0 16; t_counts := []; t_decoy := DecoyBytes [] |},
-         (CBytes [48]), (fun _ => Some [1]).
-  split; [vm_compute; reflexivity|].
-  eexists. eexists. eexists. eexists. split; [vm_compute; reflexivity|].
-  split; [exists O; split; reflexivity|]. split; left; reflexivity.
-Qed.
+Lemma c09_never_panics : forall release q t x5 sign,
+  prepare release q t <> Panic /\ issue release q t x5 sign <> Panic.
+Proof. intros. split; [apply prepare_no_panic|apply issue_no_panic]. Qed.
+
+Lemma c09_build_mode_irrelevant : forall q t x5 sign,
+  (forall i, digest_id_new true i = digest_id_new false i) /\
+  prepare true q t = prepare false q t /\ issue true q t x5 sign = issue false q t x5 sign.
+Proof. intros. split; [exact digest_id_new_build_mode|]. split; [apply prepare_build_mode|apply issue_build_mode]. Qed.
 
 Lemma c09_digests_correct : forall release q t x5 sign m,
   issue release q t x5 sign = Ok m ->
